@@ -1,0 +1,27 @@
+//go:build verif
+
+package astminify
+
+// Contracts for the deductive verifier in /verif (comment-only file, build tag verif).
+
+// C09: the candidates for extraction into fragments are collected by ranging over a map (keyed by the hash of the
+// printed selection set); the order in which they are replaced decides the fragment names A, B, ... and so the text of
+// the subgraph request. The comparator therefore has to be a total order on distinct candidates: it reports a tie only
+// for one and the same candidate (the position of its first occurrence in the document breaks ties).
+//@ func Minifier.apply$1
+//@   assumes {candidates.have.a.first.occurrence.refs.are.small.non.negative.numbers} a != nil && b != nil && len(a.items) > 0 && len(b.items) > 0 && a.items[0].selectionSet >= 0 && b.items[0].selectionSet >= 0 && a.depth >= 0 && b.depth >= 0 && a.depth < 1000000 && b.depth < 1000000
+//@   ensures {a.tie.only.for.one.and.the.same.candidate.so.map.order.cannot.show} result == 0 ==> a.items[0].selectionSet == b.items[0].selectionSet
+//@   modifies *
+//@   safety no-bounds
+
+//@ func Minifier.apply
+//@   requires m != nil && vis != nil
+//@   ghost var g_sorted bool = false
+//@   at call slices.SortStableFunc: ghost g_sorted = true
+//@   at call Minifier.replaceItems: assert {candidates.are.replaced.in.sorted.order.never.in.map.order} g_sorted
+//@   modifies *
+//@   safety no-bounds
+//@   loop 0:
+//@     invariant !g_sorted
+//@   loop 1:
+//@     invariant g_sorted
